@@ -87,3 +87,56 @@ Example C02_nonvacuous :
   /\ spec_result 2 (TList (TScalar SInt)) (VSeq [VNull]) = None /\ to_binary 2 (TList (TScalar SInt)) (VSeq [VNull]) = None
   /\ to_binary 5 (TVector (TScalar SText) 2) (VSeq [VText [97]; VText []]) = spec_result 5 (TVector (TScalar SText) 2) (VSeq [VText [97]; VText []]).
 Proof. cbv zeta. repeat split; vm_compute; reflexivity. Qed.
+
+(* ------------------------------------------------------------------------------------------------------------
+   (T) layer: the integer codecs of cassandra/marshal.py REGENERATED FROM SOURCE on every run (Gen/MarshalGen.v)
+   are byte-exact with the independent specs of java.math.BigInteger and Cassandra's VIntCoding, for ALL integers,
+   and coincide with the hand model (MarshalModel) the type-directed theorems above are stated over. *)
+Require Verif.Gen.MarshalGen Verif.Model.JavaBigInteger Verif.Model.VIntCoding Verif.Proofs.MarshalGen_proofs Verif.Proofs.MarshalBridge.
+
+Theorem C02_source_varint_exact : forall z : Z,
+  exists bs, MarshalGen.varint_pack z = PyBase.Ok bs /\ bs = JavaBigInteger.java_toByteArray z /\
+             Forall JavaBigInteger.is_byte bs /\ MarshalGen.varint_unpack bs = PyBase.Ok z.
+Proof. exact MarshalGen_proofs.marshal_varint. Qed.
+Print Assumptions C02_source_varint_exact.
+
+Theorem C02_source_varint_minimal : forall z bs, Forall JavaBigInteger.is_byte bs -> JavaBigInteger.java_fromByteArray bs = Some z ->
+  forall out, MarshalGen.varint_pack z = PyBase.Ok out -> (length out <= length bs)%nat.
+Proof. exact MarshalGen_proofs.marshal_varint_minimal. Qed.
+Print Assumptions C02_source_varint_minimal.
+
+Theorem C02_source_varint_decodes_any : forall bs, Forall JavaBigInteger.is_byte bs ->
+  PyBase.res_to_option (MarshalGen.varint_unpack bs) = JavaBigInteger.java_fromByteArray bs.
+Proof. exact MarshalGen_proofs.marshal_varint_unpack. Qed.
+Print Assumptions C02_source_varint_decodes_any.
+
+Theorem C02_source_vints_exact : forall vals, PyBase.res_to_option (MarshalGen.vints_pack vals) = VIntCoding.vints_encode vals.
+Proof. exact MarshalGen_proofs.marshal_vints_exact. Qed.
+Print Assumptions C02_source_vints_exact.
+
+Theorem C02_source_vints_reject_out_of_range : forall vals, ~ Forall (fun n => - 2 ^ 63 <= n < 2 ^ 63) vals ->
+  MarshalGen.vints_pack vals = PyBase.Raise /\ VIntCoding.vints_encode vals = None.
+Proof. exact MarshalGen_proofs.marshal_vints_rejects. Qed.
+Print Assumptions C02_source_vints_reject_out_of_range.
+
+Theorem C02_source_uvint_rejects : forall v, ~ (0 <= v < 2 ^ 64) ->
+  MarshalGen.uvint_pack v = PyBase.Raise /\ VIntCoding.uvint_encode v = None.
+Proof. exact MarshalGen_proofs.marshal_uvint_rejects. Qed.
+Print Assumptions C02_source_uvint_rejects.
+
+(* bridge: the hand model used by C02_*/C01_* IS what the source computes *)
+Theorem C02_bridge_source_eq_model :
+  (forall z, MarshalGen.varint_pack z = PyBase.Ok (MarshalModel.varint_pack z)) /\
+  (forall bs, Forall JavaBigInteger.is_byte bs -> PyBase.res_to_option (MarshalGen.varint_unpack bs) = MarshalModel.varint_unpack bs) /\
+  (forall v, PyBase.res_to_option (MarshalGen.uvint_pack v) = MarshalModel.uvint_pack v) /\
+  (forall vals, PyBase.res_to_option (MarshalGen.vints_pack vals) = MarshalModel.vints_pack vals) /\
+  (forall n, MarshalGen.encode_zig_zag n = MarshalModel.encode_zig_zag n) /\
+  (forall n, MarshalGen.decode_zig_zag n = MarshalModel.decode_zig_zag n).
+Proof.
+  repeat split.
+  - exact MarshalBridge.bridge_varint_pack.
+  - exact MarshalBridge.bridge_varint_unpack.
+  - exact MarshalBridge.bridge_uvint_pack.
+  - exact MarshalBridge.bridge_vints_pack.
+Qed.
+Print Assumptions C02_bridge_source_eq_model.
